@@ -4,6 +4,7 @@ import (
 	"fmt"
 	"net/http"
 	"strconv"
+	"strings"
 
 	"github.com/zitadel/logging"
 
@@ -363,7 +364,8 @@ func checkCertificate(
 		for _, keyDesc := range metadata.SPSSODescriptor.KeyDescriptor {
 			for _, spX509Data := range keyDesc.KeyInfo.X509Data {
 				for _, reqX509Data := range request.KeyInfo.X509Data {
-					if spX509Data.X509Certificate == reqX509Data.X509Certificate {
+					// base64 text may be wrapped differently in metadata and request
+					if removeWhitespace(spX509Data.X509Certificate) == removeWhitespace(reqX509Data.X509Certificate) {
 						return nil
 					}
 				}
@@ -372,6 +374,10 @@ func checkCertificate(
 
 		return fmt.Errorf("unknown certificate used to sign request")
 	}
+}
+
+func removeWhitespace(value string) string {
+	return strings.Join(strings.Fields(value), "")
 }
 
 func GetAcsUrlAndBindingForResponse(
